@@ -58,6 +58,8 @@ type safeSubmissionState struct {
 
 	results map[string]*submissionResult
 	cancels map[string]context.CancelFunc
+	// done holds per requested Log a channel closed once its result is final.
+	done map[string]chan struct{}
 }
 
 func newSafeSubmissionState(groups ctpolicy.LogPolicyData) *safeSubmissionState {
@@ -69,19 +71,23 @@ func newSafeSubmissionState(groups ctpolicy.LogPolicyData) *safeSubmissionState 
 	}
 	s.results = make(map[string]*submissionResult)
 	s.cancels = make(map[string]context.CancelFunc)
+	s.done = make(map[string]chan struct{})
 	return &s
 }
 
 // request includes empty submissionResult in the set, returns whether
-// the entry is requested for the first time.
-func (sub *safeSubmissionState) request(logURL string, cancel context.CancelFunc) bool {
+// the entry is requested for the first time. The channel returned is closed
+// as soon as the result of the (possibly foreign) request to the Log is final.
+func (sub *safeSubmissionState) request(logURL string, cancel context.CancelFunc) (bool, <-chan struct{}) {
 	sub.mu.Lock()
 	defer sub.mu.Unlock()
 	if sub.results[logURL] != nil {
 		// Already requested.
-		return false
+		return false, sub.done[logURL]
 	}
 	sub.results[logURL] = &submissionResult{}
+	done := make(chan struct{})
+	sub.done[logURL] = done
 	isAwaited := false
 	for g := range sub.logToGroups[logURL] {
 		if sub.groupNeeds[g] > 0 {
@@ -91,10 +97,11 @@ func (sub *safeSubmissionState) request(logURL string, cancel context.CancelFunc
 	}
 	if !isAwaited {
 		// No groups expecting result from this Log.
-		return false
+		close(done)
+		return false, done
 	}
 	sub.cancels[logURL] = cancel
-	return true
+	return true, done
 }
 
 // setResult processes SCT-result. Writes it down if it is error or awaited-SCT.
@@ -103,6 +110,11 @@ func (sub *safeSubmissionState) request(logURL string, cancel context.CancelFunc
 func (sub *safeSubmissionState) setResult(logURL string, sct *ct.SignedCertificateTimestamp, err error) {
 	sub.mu.Lock()
 	defer sub.mu.Unlock()
+	if done := sub.done[logURL]; done != nil {
+		// Wake up goroutines of other groups waiting for this Log, once
+		// the group needs are re-calculated.
+		defer close(done)
+	}
 	if sct == nil {
 		sub.results[logURL] = &submissionResult{sct: sct, err: err}
 		return
@@ -220,7 +232,15 @@ func groupRace(ctx context.Context, chain []ct.ASN1Cert, asPreChain bool,
 				cancel()
 				return
 			}
-			if firstRequested := state.request(logURL, cancel); !firstRequested {
+			firstRequested, done := state.request(logURL, cancel)
+			if !firstRequested {
+				// The Log is being requested on behalf of another group. Its
+				// result counts for this group as well, so the race must not
+				// end before it is known.
+				select {
+				case <-subCtx.Done():
+				case <-done:
+				}
 				return
 			}
 			sct, err := submitter.SubmitToLog(subCtx, logURL, chain, asPreChain)
